@@ -182,11 +182,18 @@ class Final(_Proc):
     modules = ("pysnark.runtime",)
 
     def configs(self, tier):
-        return [dict(autoprove=a) for a in (True, False)]
+        # ... whatever state the script left the run-time switches in: checks off (ignore_errors(True), as
+        # examples/sudoku.py leaves it), a region with a dead guard still open at sys.exit(0)
+        return [dict(autoprove=a, ie=i, open_guard=g) for a in (True, False) for i in (False, True) for g in (False, True)]
 
     def setup(self, c, cfg):
         rt = c.rt
         rt.autoprove = cfg["autoprove"]
+        rt._ignore_errors = cfg["ie"]
+        if cfg["open_guard"]:
+            G = c.operand("left_open")
+            rt.guard = G
+            rt.LinComb.ONE = G
         self._n0 = len([x for x in c.w.stdout if x == ("<ghost>", ("prove",))])
         return rt.final, (), {}
 
@@ -194,3 +201,50 @@ class Final(_Proc):
         n = len([x for x in c.w.stdout if x == ("<ghost>", ("prove",))]) - self._n0
         return {"V.proves_iff_autoprove": n == (1 if c.cfg["autoprove"] else 0),
                 "F.registered_at_exit": any(getattr(fn, "__qualname__", "").endswith("maybe_") for fn, a, k in c.w.atexit)}
+
+
+def _final_replay(self, ob, cfg):
+    """CPython runs the real runtime.final() in the state of the configuration, with the backend's proving step
+    replaced by a counter (nothing else is touched)."""
+    import json, os, subprocess, sys, tempfile, shutil
+    from pyvc.replay import REPO
+    tmp = tempfile.mkdtemp(prefix="pyvc_final_")
+    try:
+        script = r'''
+import sys, json, atexit
+sys.path.insert(0, %r)
+import pysnark.snarkjsbackend as be
+import pysnark.runtime as rt
+atexit._clear()
+cfg = json.loads(%r)
+calls = []
+be.prove = lambda *a, **k: calls.append(1)
+rt.autoprove = cfg["autoprove"]
+rt._ignore_errors = cfg["ie"]
+if cfg["open_guard"]:
+    g = rt.PrivVal(0)
+    rt.guard = g
+    rt.LinComb.ONE = g
+out = {}
+try:
+    rt.final()
+    out["outcome"] = "return"
+except BaseException as e:
+    out["outcome"] = "raise"; out["exception"] = type(e).__name__
+out["prove_calls"] = len(calls)
+out["expected_prove_calls"] = 1 if cfg["autoprove"] else 0
+out["confirmed"] = out["outcome"] == "return" and out["prove_calls"] != out["expected_prove_calls"]
+json.dump(out, open("out.json", "w"))
+''' % (REPO, json.dumps({k: cfg.get(k) for k in ("autoprove", "ie", "open_guard")}))
+        open(os.path.join(tmp, "probe.py"), "w").write(script)
+        env = dict(os.environ)
+        env.pop("PYSNARK_BACKEND", None)
+        pr = subprocess.run([sys.executable, "probe.py"], cwd=tmp, capture_output=True, text=True, timeout=60, env=env)
+        if not os.path.exists(os.path.join(tmp, "out.json")):
+            return dict(confirmed=False, replay_error=(pr.stdout + pr.stderr)[-1200:])
+        return json.load(open(os.path.join(tmp, "out.json")))
+    finally:
+        shutil.rmtree(tmp, ignore_errors=True)
+
+
+Final.native_replay = lambda self, ob, cfg: _final_replay(self, ob, cfg) if ob["name"] == "V.proves_iff_autoprove" else dict(confirmed=False, note="no native replay for this clause")
